@@ -208,6 +208,17 @@ pub mod uri {
 				probs.push((format!("hash:{name}"), format!("hash(UriBuf) {hv:x} != hash({name}) {x:x}")));
 			}
 		}
+		fn hc<T: ?Sized + Hash>(t: &T) -> u64 {
+			let mut s = Chunky(0xcbf29ce484222325);
+			t.hash(&mut s);
+			s.finish()
+		}
+		let hv = hc(&owned);
+		for (name, x) in [("Uri->Iri", hc(as_iri)), ("Uri->IriRef", hc(as_iri_ref)), ("UriBuf->Iri", hc(owned_as_iri)), ("UriBuf->IriRef", hc(owned_as_iri_ref))] {
+			if x != hv {
+				probs.push((format!("chunk-sensitive-hash:{name}"), format!("hash(UriBuf) {hv:x} != hash({name}) {x:x}")));
+			}
+		}
 		let mut hs: HashSet<RiBuf> = HashSet::new();
 		hs.insert(owned.clone());
 		if !hs.contains(as_iri) {
